@@ -68,11 +68,14 @@ impl Mons {
         for f in obs.findings {
             if let Some(m) = self.m.get_mut(f.prop) {
                 m.violation(&f.sig, json!({"case": case, "finding": f.detail}));
-            } else if f.sig.contains("-failed-on-valid-history") || f.sig.contains("flush-failed") {
-                // The runtime refused a valid history: no property served by this workload can
-                // be observed any further, so every active monitor reports it.
+            } else {
+                // The oracle that fired belongs to a property this run does not enforce, but the
+                // anomaly was observed in the workload driven for the active properties (e.g. the
+                // committed facts after a rejected command, the heads after an action): it refutes
+                // the state they rely on, so every active monitor reports it, tagged with its origin.
+                let sig = format!("{}:{}", f.prop, f.sig);
                 for m in self.m.values_mut() {
-                    m.violation(&f.sig, json!({"case": case, "finding": f.detail}));
+                    m.violation(&sig, json!({"case": case, "finding": f.detail}));
                 }
             }
         }
@@ -107,7 +110,7 @@ fn main() {
     let mut plan: Vec<(&str, u64, u64)> = vec![];
     if want(&["C01", "C02", "C03", "C09"]) {
         plan.push(("hist", 1000, 20_000));
-        plan.push(("large", 6, 60));
+        plan.push(("large", 5, 60));
     }
     if want(&["C05"]) {
         plan.push(("pf", 1000, 20_000));
